@@ -361,9 +361,6 @@ func (e *mvEnv) judge(label string, m *nom.Momentum, blocks []*nom.AccountBlock)
 			flat(blocks)
 			heads := map[types.Address]types.HashHeight{}
 			for _, h := range m.Content {
-				if types.IsEmbeddedAddress(h.Address) {
-					continue // contract receives carry their descendant sends (batches): C04 / C09 own their order
-				}
 				prevID, ok := heads[h.Address]
 				if !ok {
 					if fb, err := pst.GetFrontierAccountBlock(h.Address); err == nil && fb != nil {
@@ -375,8 +372,16 @@ func (e *mvEnv) judge(label string, m *nom.Momentum, blocks []*nom.AccountBlock)
 					c.Fail("mverify: accepted momentum lists account block %v/%d for which no block was delivered; %s", h.Address, h.Height, what)
 					return
 				}
-				if b.Height != prevID.Height+1 || b.PreviousHash != prevID.Hash {
-					c.Fail("mverify: accepted momentum confirms block height %d (previous %v) of account %v whose confirmed chain (with the blocks listed before it) ends at height %d (%v): a height of the account chain is skipped; %s", b.Height, b.PreviousHash, h.Address, prevID.Height, prevID.Hash, what)
+				if types.IsEmbeddedAddress(b.Address) && (b.BlockType == nom.BlockTypeContractSend || b.BlockType == nom.BlockTypeUserSend) {
+					continue // a descendant send of a contract receive listed in this momentum: part of that receive's batch
+				}
+				// a contract receive stands for its whole batch: the batch starts at its first descendant send
+				first := b
+				if len(b.DescendantBlocks) > 0 {
+					first = b.DescendantBlocks[0]
+				}
+				if first.Height != prevID.Height+1 || first.PreviousHash != prevID.Hash {
+					c.Fail("mverify: accepted momentum confirms block height %d (previous %v) of account %v whose confirmed chain (with the blocks listed before it) ends at height %d (%v): a height of the account chain is skipped; %s", first.Height, first.PreviousHash, h.Address, prevID.Height, prevID.Hash, what)
 					return
 				}
 				heads[h.Address] = h.Identifier()
@@ -834,6 +839,42 @@ func init() {
 					}
 					freshSends = nil
 					c.Hit("fresh-account-two-blocks-in-one-momentum")
+				}()
+			}
+			// two calls to ONE contract by two users (r%6 == 2), confirmed by this round's momentum; at r%6 == 3 a momentum of the
+			// mock's own producer lets the contract's two receives be generated, so that they wait in the pool for this round's
+			// candidates (both receives of one contract in one momentum)
+			if r%6 == 2 {
+				func() {
+					defer func() {
+						if x := recover(); x != nil {
+							c.Hit("contract-calls-failed")
+						}
+					}()
+					names := []string{g.Pillar1Name, g.Pillar2Name, g.Pillar3Name}
+					for k, u := range []*wallet.KeyPair{g.User2, g.User3} {
+						z.InsertSendBlock(&nom.AccountBlock{Address: u.Address, ToAddress: types.PillarContract,
+							Data:          definition.ABIPillars.PackMethodPanic(definition.DelegateMethodName, names[(r/6+k)%len(names)]),
+							TokenStandard: types.ZnnTokenStandard, Amount: big.NewInt(0)}, nil, mock.SkipVmChanges)
+					}
+					c.Hit("two-calls-to-one-contract")
+				}()
+			}
+			if r%6 == 3 {
+				func() {
+					defer func() {
+						if x := recover(); x != nil {
+							c.Hit("contract-receives-failed")
+						}
+					}()
+					z.InsertNewMomentum()
+					n := 0
+					for _, b := range z.Chain().GetNewMomentumContent() {
+						if b.Address == types.PillarContract && b.BlockType == nom.BlockTypeContractReceive {
+							n++
+						}
+					}
+					c.Hit(fmt.Sprintf("contract-receives-waiting-%d", n))
 				}()
 			}
 			// change the pillar weights: a user delegates; the mock's own producer path includes the send and lets the
